@@ -185,7 +185,7 @@ def Coh (H : Bytes → Bytes) (G : Bytes → Bytes → Prop) (hp : Heap) : Bool 
   | r, .leaf pk v, N, a => (hp.get a).dirty = false → CleanOK H G r (hp.get a) (.leaf pk v) N
   | r, .branch pk v cs, N, a =>
     ((hp.get a).dirty = false → CleanOK H G r (hp.get a) (.branch pk v cs) N) ∧
-    ((hp.get a).dirty = true → ∀ i c, (hp.get a).kids i = some c → Coh H G hp false (cs i) (kidAt N i) c)
+    (∀ i c, (hp.get a).kids i = some c → Coh H G hp false (cs i) (kidAt N i) c)
 
 theorem Coh.clean {H : Bytes → Bytes} {G : Bytes → Bytes → Prop} {hp : Heap} {r : Bool} {t : Trie} {N : Node}
     {a : Nat} (h : Coh H G hp r t N a) (hne : t ≠ .nil) (hd : (hp.get a).dirty = false) :
@@ -258,12 +258,11 @@ theorem coh_dframe {H : Bytes → Bytes} {G : Bytes → Bytes → Prop} {hp hp' 
     have hd0 : (hp.get a).dirty = false := by rw [← (hf.strip a).2]; exact hd
     rw [hf.clean hd0]; exact h hd0
   | .branch pk v cs, r, N, a, h => by
-    refine ⟨fun hd => ?_, fun hd i c hk => ?_⟩
+    refine ⟨fun hd => ?_, fun i c hk => ?_⟩
     · have hd0 : (hp.get a).dirty = false := by rw [← (hf.strip a).2]; exact hd
       rw [hf.clean hd0]; exact h.1 hd0
-    · have hd0 : (hp.get a).dirty = true := by rw [← (hf.strip a).2]; exact hd
-      have hk0 : (hp.get a).kids i = some c := by rw [← strip_kids (hf.strip a).1]; exact hk
-      exact coh_dframe hf (cs i) false _ c (h.2 hd0 i c hk0)
+    · have hk0 : (hp.get a).kids i = some c := by rw [← strip_kids (hf.strip a).1]; exact hk
+      exact coh_dframe hf (cs i) false _ c (h.2 i c hk0)
 
 /-- `HRep` only reads the fields other than the caches -/
 theorem hrep_strip' {hp hp' : Heap} (hs : ∀ b, (hp'.get b).strip = (hp.get b).strip) :
@@ -427,7 +426,7 @@ theorem calcMV_pure (H : Bytes → Bytes) (G : Bytes → Bytes → Prop) : ∀ (
           unfold HNode.encKids; rw [hb]; rfl
         have hkidc : ∀ i c, (hp.get a).kids i = some c → Coh H G hp false (cs i) (kn i) c := by
           intro i c hic
-          have := hc.2 hd i c hic
+          have := hc.2 i c hic
           rw [hN, kidAt_map] at this
           exact this
         have hloop := encodeKids_loop_pure H (calcMV H f) (hp.get a).kids kn hp (depth (.branch pk v cs))
@@ -610,7 +609,7 @@ theorem coh_wd {H : Bytes → Bytes} {c : Ctx} {s s' : Heap × DB} (w : WD H c s
         · rw [e]; simp only [flav, hr]
         · rw [hr]; exact hcnd
   | .branch pk v cs, r, N, b, h, hc, hr, hab => by
-    refine ⟨fun hd' => ?_, fun hd' i x hk => ?_⟩
+    refine ⟨fun hd' => ?_, fun i x hk => ?_⟩
     · rcases w.cell b with e | ⟨hd, h1⟩
       · rw [e] at hd' ⊢
         exact cleanOK_mono w.dbmono (hc.1 hd')
@@ -622,14 +621,10 @@ theorem coh_wd {H : Bytes → Bytes} {c : Ctx} {s s' : Heap × DB} (w : WD H c s
           · rw [hr]; exact hcnd
     · have hstrip := w.cache.cell b
       have hk0 : (s.1.get b).kids i = some x := by rw [← strip_kids hstrip]; exact hk
-      have hd0 : (s.1.get b).dirty = true := by
-        rcases w.cell b with e | ⟨hd, _⟩
-        · rw [← e]; exact hd'
-        · exact hd
       obtain ⟨_, _, _, kn, hN, hkids⟩ := h
       have hkid := hkids i
       rw [hk0] at hkid
-      have hcx := hc.2 hd0 i x hk0
+      have hcx := hc.2 i x hk0
       rw [hN, kidAt_map] at hcx ⊢
       have hlt := depth_kid pk v cs i
       refine coh_wd w (cs i) false (kn i) x hkid.2 hcx ?_ ?_
@@ -722,7 +717,7 @@ theorem encodeAndHash_pure (H : Bytes → Bytes) (G : Bytes → Bytes → Prop) 
       unfold HNode.encKids; rw [hb]; rfl
     have hkidc : ∀ i c, (hp.get a).kids i = some c → Coh H G hp false (cs i) (kn i) c := by
       intro i c hic
-      have := hc.2 hd i c hic
+      have := hc.2 i c hic
       rw [hN, kidAt_map] at this
       exact this
     have hloop := encodeKids_loop_pure H (calcMV H bigFuel) (hp.get a).kids kn hp (depth (.branch pk v cs))
